@@ -30,7 +30,9 @@ let rec_of (s : ostring) : record =
 let orec_of s = if s = "-" then None else Some (rec_of s)
 
 let topic_of (s : ostring) : topic =
-  if s = "d" then TDelete else if s = "r" then TRunStateChange else TStatus (zs (String.sub s 1 (String.length s - 1)))
+  if s = "d" then TDelete else if s = "r" then TRunStateChange
+  else if s.[0] = 'k' then TConn (ns (String.sub s 1 (String.length s - 1)))
+  else TStatus (zs (String.sub s 1 (String.length s - 1)))
 
 let kind_of = function
   | "AW" -> KAW | "NR" -> KNR | "RV" -> KRV | "AK" -> KAK | "CL" -> KCL | "LK" -> KLK | "LT" -> KLT | "ST" -> KST
@@ -51,6 +53,7 @@ let ufun_of (code : ostring) : ufun =
   | 4 -> UFTimeout (z_of_int s, nat_of_int j)
   | 5 -> UFHook (match rs_of_code (z_of_int rest) with Some x -> x | None -> RSUnknown)
   | 7 -> UFFilter (n_of_int rest)
+  | 8 -> UFConn (n_of_int rest)
   | _ -> UFDelete
 
 let uret_of (s : ostring) : uret =
